@@ -353,7 +353,7 @@ class Gen:
         segs = [".."] * (len(src) - k) + dst[k:]
         x = r.random()
         if ["p"] + dst in self.lps and src != dst and x < 0.6:
-            segs, ext = [], False                     # found through a load path (a `.scss` URL never consults them)
+            segs = []                                 # found through a load path (with or without the `.scss`)
             self.feat.add("via-load-path")
         elif x < 0.75 or not self.lexical and x < 0.97:
             pass                                      # the plain relative spelling
